@@ -35,7 +35,7 @@ def build(ps, P, names, order, shape, pbname="pb"):
         elif role == "o":
             objs["o"] = ps.FixedDurationTask(name=names["o"], duration=P.int("do"), optional=True)
         elif role == "s":
-            objs["s"] = ps.VariableDurationTask(name=names["s"], min_duration=P.int("ms"))
+            objs["s"] = ps.VariableDurationTask(name=names["s"], min_duration=P.int("ms"), optional=(shape == "distance3"))
 
     def mk_worker(role):
         objs[role] = ps.Worker(name=names[role])
@@ -47,8 +47,19 @@ def build(ps, P, names, order, shape, pbname="pb"):
     a, o, s = objs["a"], objs["o"], objs["s"]
     W, V = objs["W"], objs["V"]
     # requirements (fixed order: they are not a declaration stage of their own)
-    a.add_required_resource(W)
-    if shape in ("select", "distance"):
+    if shape == "distance3":
+        # two optional tasks (their parking points depend on which is declared first); the optional task o holds W
+        # directly, the mandatory task a chooses between W and V
+        o.add_required_resource(W)
+        s.add_required_resource(V)
+        sel = ps.SelectWorkers(list_of_workers=[W, V], nb_workers_to_select=1)
+        objs["sel"] = sel
+        a.add_required_resource(sel)
+    else:
+        a.add_required_resource(W)
+    if shape == "distance3":
+        pass
+    elif shape in ("select", "distance"):
         sel = ps.SelectWorkers(list_of_workers=[W, V], nb_workers_to_select=1)
         objs["sel"] = sel
         o.add_required_resource(sel)
@@ -69,7 +80,7 @@ def build(ps, P, names, order, shape, pbname="pb"):
         elif role == "start":
             ps.TaskStartAfter(name=names["start"], task=o, value=P.int("v"))
         elif role == "extra":
-            if shape in ("distance", "distance2"):
+            if shape in ("distance", "distance2", "distance3"):
                 ps.ResourceTasksDistance(name=names["extra"], resource=W, distance=P.int("dist"), mode="min")
             elif shape == "group":
                 ps.UnorderedTaskGroup(name=names["extra"], list_of_tasks=[a, s], time_interval_length=P.int("glen"))
@@ -102,7 +113,7 @@ def preconditions(P):
 NAMES_1 = dict(a="a", o="o", s="s", W="W", V="V", prec="cprec", start="cstart", extra="cextra", ind="ind")
 NAMES_2 = dict(a="alpha", o="omega", s="sigma", W="Worker9", V="v", prec="c1", start="c2", extra="c3", ind="myindicator")
 ORDER_0 = dict(tasks=("a", "o", "s"), workers=("W", "V"), constraints=("prec", "start", "extra"))
-SHAPES = ("plain", "select", "workload", "indicator", "distance", "distance2", "group")
+SHAPES = ("plain", "select", "workload", "indicator", "distance", "distance2", "distance3", "group")
 # names may be shared across kinds (each kind has its own registry): a constraint, an indicator or a worker
 # called like a task
 NAMES_3 = dict(a="a", o="o", s="s", W="a", V="o", prec="a", start="o", extra="s", ind="a")
@@ -233,7 +244,7 @@ class DeclarationOrder(Contract):
             Yp = [z3.substitute(f, *subs) for f in Y]
             goal = z3.Exists(list(primes.values()), And(*link, *Yp)) if primes else And(*Yp)
             regions = None
-            if case["shape"] in ("distance", "distance2"):
+            if case["shape"] in ("distance", "distance2", "distance3"):
                 regions = {"an optional task is left out": Not(spec.sched(ox["o"]))}
             out.append(Clause(f"relational[{tag}: every schedule admitted in one declaration order is admitted in the other]", goal, hyps=X, props=("C14",), kind="complete", bounded=self.bounded, regions=regions))
         return out
